@@ -1,5 +1,7 @@
 import Driver.Common
 import Rpki.Model.Manifest
+import Rpki.Model.Crl
+import Driver.C14
 namespace Driver.C05
 open Driver
 
@@ -25,8 +27,49 @@ def mftConforms (toks : List String) : Bool :=
     (match whole this, whole next with | some a, some b => decide (a ≤ b) | _, _ => false) && namesOk
   | _ => false
 
+def parseSerial (h : String) : Option (List Nat) :=
+  (hexB h).map fun b => List.replicate (20 - b.length) 0 ++ b
+
+/-- `crlx`: the library's encoder of the revocation list against the Lean codec model -/
+def handleCrl (entries probes impl : String) : Verdict :=
+  let es : Option (List Rpki.Crl.Entry) :=
+    if entries = "-" then some [] else
+    (entries.splitOn ",").mapM fun e => match e.splitOn "@" with
+      | [s, t] => match parseSerial s, t.toInt?.bind Driver.C14.civilOf with
+        | some s, some c => some ⟨s, c⟩ | _, _ => none
+      | _ => none
+  let ps : Option (List (List Nat)) := if probes = "-" then some [] else (probes.splitOn ",").mapM parseSerial
+  match es, ps with
+  | some es, some ps =>
+    let list := Rpki.Crl.encodeList es
+    let der := if es.isEmpty then [] else Rpki.Der.tlv Rpki.Der.tagSeq list
+    let bits := String.ofList (ps.map fun p => if es.any (fun e => e.serial == p) then '1' else '0')
+    let bits := if bits.isEmpty then "-" else bits
+    let want := s!"{toHex (der.map UInt8.ofNat)} {bits} {bits} {es.length}"
+    { model := some want,
+      oracle :=
+        match impl.splitOn " " with
+        | [h, b1, b2, n] =>
+          -- stated on the library's own octets: the model reader lists exactly the entries given to the builder,
+          -- and both lookups answer membership
+          match hexB h with
+          | none => some "unreadable"
+          | some d =>
+            let content := if d.isEmpty then some [] else (Rpki.Der.takeCons Rpki.Der.tagSeq d).map (·.1)
+            match content.bind Rpki.Crl.entries with
+            | none => some "the revocation list the builder wrote cannot be iterated"
+            | some got =>
+              if got ≠ es then some "the revocation list read back differs from the builder's entries"
+              else if b1 ≠ bits then some "Crl::contains disagrees with membership of the serial"
+              else if b2 ≠ bits then some "Crl::contains after cache_serials disagrees with membership of the serial"
+              else if n.toNat? ≠ some es.length then some "the iterator yields another number of entries"
+              else none
+        | _ => if impl = "panic" then some "panicked" else some "unreadable result" }
+  | _, _ => badOp "crlx args"
+
 def handle (toks : List String) (impl : String) : Verdict :=
   match toks with
+  | ["crlx", entries, probes] => handleCrl entries probes impl
   | op :: _ =>
     let r := impl.splitOn " "
     let conf := tokOf r "conf="
